@@ -582,7 +582,7 @@ theorem cryptoHousekeep_NI (env : CryptoEnv) (o : Oracle) (c : Ctx) (now : Int) 
 theorem reconnectToPeers_NI (env : CryptoEnv) (o : Oracle) (c : Ctx) (now : Int) (h : NI P N K A c) : NI P N K A (reconnectToPeers env o c now) := by
   unfold reconnectToPeers
   simp only []
-  have h1 : NI P N K A (c.node.reconnect.foldl (fun c e => if e.next > now then c else connect env o c e.resolved) c) := by
+  have h1 : NI P N K A (c.node.reconnect.foldl (fun c e => if Generated.reconnectNotDue e.next now then c else connect env o c e.resolved) c) := by
     apply foldl_inv (NI P N K A) _ _ _ _ h
     intro c e hc
     split
@@ -1637,7 +1637,7 @@ theorem cryptoHousekeep_PK (env : CryptoEnv) (o : Oracle) (c : Ctx) (now : Int) 
 theorem reconnectToPeers_PK (env : CryptoEnv) (o : Oracle) (c : Ctx) (now : Int) (h : PK own0 pend0 s c) : PK own0 pend0 s (reconnectToPeers env o c now) := by
   unfold reconnectToPeers
   simp only []
-  have h1 : PK own0 pend0 s (c.node.reconnect.foldl (fun c e => if e.next > now then c else connect env o c e.resolved) c) := by
+  have h1 : PK own0 pend0 s (c.node.reconnect.foldl (fun c e => if Generated.reconnectNotDue e.next now then c else connect env o c e.resolved) c) := by
     apply foldl_inv (PK own0 pend0 s) _ _ _ _ h
     intro c e hc
     split
